@@ -7,6 +7,7 @@ C18 — Base64 codec is exact and strict.   Property theorems only.
 import Strophe.Model.Base64
 import Strophe.Spec.Rfc4648
 import Strophe.Lemmas.Base64
+import Strophe.Lemmas.Base64Safe
 
 namespace Strophe.C18
 open Strophe Strophe.Base64
@@ -83,6 +84,22 @@ theorem decode_str_refuses_nul (s v : Bytes) (h : decodeStr s = some v) : (0 : U
       · simp at h
       · simp at h; subst h; assumption
 
+/-! ### refused inputs too: nothing is stored outside the buffer -/
+
+/-- `base64_decode` sizes its buffer (`dlen + 1` bytes) from `base64_decoded_len` BEFORE it looks at
+    the characters in front of the trailing padding, and it stores three bytes per whole quartet
+    until it meets the first non-alphabet character — on inputs it goes on to refuse as well.  For
+    EVERY input that gets as far as the allocation: the quartet loop stores at most `dlen` bytes,
+    and when the tail stage is reached and stores `t`, loop and tail together stay within `dlen`
+    (the NUL goes to index `dlen`).  The `nudge > 2` refusal in `base64_decoded_len` is what makes
+    this true: without it "AAAA========" allocates 2 bytes and stores 3 (seeded change C18-m10). -/
+theorem writes_within_buffer (s : Bytes) (h4 : s.length % 4 = 0) (hd : decodedLen s ≠ 0) :
+    (quartets s [] 0).written.length ≤ decodedLen s ∧
+    (((quartets s [] 0).rest = [] ∨ ((quartets s [] 0).rest.length = 4 ∧ decodedLen s % 3 ≠ 0)) →
+      ∀ t, tail (s.drop (s.length - 4)) (decodedLen s % 3) = some t →
+        (quartets s [] 0).written.length + t.length ≤ decodedLen s) :=
+  Lemmas.Base64Safe.writes_within_buffer s h4 hd
+
 /-! ### non-vacuity and the witnesses of finding D21 (padding inside a non-final quartet) -/
 
 /-- "Zm9v" ↦ "foo" -/
@@ -97,5 +114,13 @@ example : encode (cs ['f','o','o','b']) = cs ['Z','m','9','v','Y','g','=','='] :
 /-- "AA==" decodes to a NUL byte: refused by the string variant, accepted by the binary one -/
 example : decodeStr (cs ['A','A','=','=']) = none ∧ decodeBin (cs ['A','A','=','=']) = some ([0], 1) := by
   decide
+
+/-- a refused input that still stores bytes: "AAAAAA=A" (8 characters, buffer for 6) stores the 3
+    bytes of its first quartet and is then refused; and the long padding run is refused before
+    anything is allocated -/
+example : decodedLen (cs ['A','A','A','A','A','A','=','A']) = 6 ∧
+          (quartets (cs ['A','A','A','A','A','A','=','A']) [] 0).written.length = 3 ∧
+          decodeBin (cs ['A','A','A','A','A','A','=','A']) = none ∧
+          decodedLen (cs ['A','A','A','A','=','=','=','=','=','=','=','=']) = 0 := by decide
 
 end Strophe.C18
